@@ -29,6 +29,8 @@ func main() {
 				fmt.Println(k)
 			}
 		}
+	case "replay":
+		os.Exit(eng.CmdReplay(os.Args[2:]))
 	case "check":
 		os.Exit(eng.CmdCheck(os.Args[2:]))
 	default:
